@@ -13,6 +13,30 @@ from harness import matcoq as M  # noqa: E402
 
 PROP = "C04"
 # Clause-by-clause coverage of the property text: clause -> oracle key(s) that judge it <- generator kind(s) that exercise it.
+# Every raise / assert / try-except / early return / special case / dtype cast of the anchored code (dataset.py converter
+# + materialize, mapper.py categorical / multicategorical) : generator kind that reaches it -> oracle key that notices
+# if it is removed, loosened or replaced by a default.
+ERROR_PATHS = [
+    "__call__: df[col] KeyError for a missing feature column : drop_feature calls -> malformed-accepted",
+    "__call__: `target_col in df` special case (y only then) : drop_target, unlabeled, target_missing -> y-without-target, y-rows",
+    "__call__: per-storage branches (stack / MultiNestedTensor.cat / dict / MultiEmbeddingTensor.cat) : all nine stypes -> row-local:<stype>",
+    "_merge_feat: parent present vs absent, pop of child keys : frames with embedding + text/image children, repeated calls -> names-at-return, names-later, row-local:embedding|text_embedded|image_embedded",
+    "_get_mapper: NotImplementedError branch unreachable for the nine stypes; per-stype mapper choice : all stypes -> row-local:<stype>",
+    "materialize: early return when already materialized : not exercised by C04 (by design a no-op; C09/C11)",
+    "materialize(col_stats): asserts on missing columns / statistics : supplied cases (complete statistics) -> supplied-raises:*; any rewrite of the supplied lists : wide-int / float categories -> supplied-frame, supplied-stats, supplied-stats-source-changed",
+    "materialize: binary-target re-sort (len(index) == 2) : binary targets -> y-rows, unseen:target (and C03)",
+    "CategoricalTensorMapper.forward: astype(object) of keys and category index (no pandas merge refusal) : int / float / wide-int categories x all-missing selections, strings among numeric categories, numbers among string categories, float64-held columns with non-integral values and +/-inf -> convert-raises:*, row-local:categorical, unseen:categorical",
+    "CategoricalTensorMapper.forward: NaN -> -1 and .to(long) : missing cells, unseen values -> unseen:categorical, row-local:categorical",
+    "MultiCategoricalTensorMapper.__init__: object index with the -1 marker : columns without any category + unseen tokens -> convert-raises:*:unseen",
+    "MultiCategoricalTensorMapper.forward: dtype gate ValueError (non-object / non-string column) : outside the quantifier (C01 malformed stream)",
+    "split_by_sep: missing -> {-1}; blank -> set(); asserts on sep vs cell kind; strip of tokens : missing / blank / padded cells, sibling-vocabulary cell strings -> row-local:multicategorical, unseen:multicategorical",
+    "MultiCategoricalTensorMapper.forward: reset_index, explode, merge, dropna, astype(int64), value_counts().reindex(fill 0), cumsum : repeated rows (duplicate labels), empty cells, unseen-only cells -> row-local:multicategorical, unseen:multicategorical, convert-raises:*",
+    "NumericalTensorMapper: astype(default float dtype) : numerical columns (dyadic payloads) -> row-local:numerical",
+    "NumericalSequenceTensorMapper: get_sequence_length ValueError (non-list cell) outside the quantifier; offsets/explode/astype(float32) : ragged sequences, missing / empty cells -> row-local:sequence_numerical",
+    "TimestampTensorMapper: to_datetime(errors='coerce'), nan_to_num(-1).to(long) : garbage / missing cells, seven formats -> row-local:timestamp",
+    "EmbeddingTensorMapper / TextTokenizationTensorMapper: str(x) rendering, batching, values[0] IndexError on an empty frame (excluded: idx <> []) : stub columns with batch sizes None/1/2/3 -> row-local:text_embedded|image_embedded|text_tokenized",
+]
+
 CLAUSES = [
     "converting the dataset's own frame reproduces its TensorFrame -> row-local:*, names-at-return, num-rows, y-rows, "
     "after-other-datasets:* <- call kind 'all', the implicit recheck after other datasets, Coq session_ok / own_frame_ok",
@@ -62,6 +86,9 @@ ASSUMPTIONS = [
     "column it is given, so ambiguous (e.g. day-first) strings without an explicit format are outside the generator; "
     "explicit formats, including day-first ones, and object / str dtypes are drawn; pd.to_datetime itself is a black "
     "box of the model (the parsed column is an input)",
+    "category columns mixing int and str labels, and bool labels next to ints (True == 1 in Python), are outside the "
+    "quantifier (DESIGN section 8: not in C01's frames) and never drawn; float categories and integers wider than int64 "
+    "next to negatives ARE drawn, also as list tokens, and with supplied statistics",
     "text_embedded / image_embedded / text_tokenized columns are opaque in the Coq model (cell = id of its source row, "
     "identified through the dataset's own TensorFrame); the six other stypes run the pipeline models of Model/Mapper.v",
 ]
@@ -126,6 +153,14 @@ def gen_injections(rng, desc, rows):
         # (alone or, below, together with unseen values in feature columns)
         for pos in sorted(set(rng.randrange(len(rows)) for _ in range(rng.randint(1, 2)))):
             out.append({"col": tcol["name"], "pos": pos, "kind": "unseen"})
+    fcols = [c for c in cands if c.get("cast") == "float64"]
+    if fcols and len(rows) >= 2 and rng.chance(0.5):
+        # a string in a float-category column next to cells that are categories (pandas holds the column as object)
+        c = rng.pick(fcols)
+        seen_pos = [p for p, r in enumerate(rows) if c["cells"][r] is not None]
+        if len(seen_pos) >= 1:
+            pos = rng.pick([p for p in range(len(rows)) if p != seen_pos[0]])
+            out.append({"col": c["name"], "pos": pos, "kind": "othertype", "value": "zz"})
     if not cands or not rng.chance(0.3 if with_target else 0.55):
         return out
     for _ in range(rng.randint(1, 3)):
@@ -150,6 +185,13 @@ def neighbour_value(rng, desc, c, src_row):
         if not seen:
             return None
         v = rng.pick(seen)
+        if rng.chance(0.55 if isinstance(v, (int, float)) else 0.3) and (isinstance(v, (int, float)) or c["dtype"] == "object"):
+            # a value of ANOTHER TYPE than the categories: pandas then holds the converted column as object / mixed
+            return ("othertype", "zz" if isinstance(v, (int, float)) else rng.pick([7, 2.5, -1]))
+        if isinstance(v, float):
+            return ("nonintegral", rng.pick([v + 0.25, v - 0.125, "inf"]))
+        if isinstance(v, int) and any(isinstance(x, int) and abs(x) >= 2 ** 53 for x in seen):
+            return None          # a float neighbour of such integers is not representable
         if isinstance(v, int):
             return ("nonintegral", rng.pick([v + 0.5, v + 0.9, v - 0.5, v + 0.1, "inf", "-inf"]))
         for w in rng.sample([v.upper(), v.lower(), v.swapcase(), v + " ", " " + v, v + "\t", v[:-1], v + v[-1:]], 8):
@@ -180,8 +222,9 @@ def gen_case(rng, tier):
                        ["text_embedded", "image_embedded", "numerical", "categorical"],
                        ["categorical", "multicategorical", "timestamp", "sequence_numerical", "text_tokenized"],
                        ["text_embedded", "categorical", "multicategorical"]])
-    desc = gen_vocab_frame(rng) if rng.chance(0.22) else G.gen_frame(rng, stypes=st, target_missing=0.7)
-    case = {"frame": desc, "calls": gen_calls(rng, desc, rng.randint(1, 4)), "supplied": rng.chance(0.5)}
+    desc = gen_vocab_frame(rng) if rng.chance(0.28) else G.gen_frame(rng, stypes=st, target_missing=0.7)
+    case = {"frame": desc, "calls": gen_calls(rng, desc, rng.randint(1, 4)),
+            "supplied": rng.chance(0.8 if desc.get("vocab") else 0.5)}
     case["materialize_args"] = {"device": rng.pick(["default", "default", "pos_none", "kw_str", "kw_device"]),
                                 "col_stats": rng.pick(["keyword", "positional"])}
     if rng.chance(0.35):
@@ -218,7 +261,15 @@ def gen_vocab_frame(rng):
             col("c1", "categorical", [None if rng.chance(mp) else rng.pick(["a", "b", "B", "a b", "ab"]) for _ in range(n)],
                 dtype=rng.pick(["object", "str"])),
             col("k", "categorical", [None if rng.chance(mp) else rng.pick([1, 2, 3, 10]) for _ in range(n)]),
-            col("x", "numerical", [float(i) for i in range(n)], dtype="float")]
+            col("x", "numerical", [float(i) for i in range(n)], dtype="float"),
+            # categories that are floats (the column is held as float64), and integers wider than int64 next to
+            # negatives, also as tokens of list-valued multicategorical cells
+            col("f", "categorical", [None if rng.chance(mp) else rng.pick([0.5, 1.5, 2.0, -3.25]) for _ in range(n)],
+                cast="float64", nan_kind="nan"),
+            col("w", "categorical", [None if rng.chance(mp) else rng.pick([2 ** 63 + 1, -5, 7, 2 ** 64]) for _ in range(n)]),
+            col("mw", "multicategorical", [None if rng.chance(mp) else
+                                           [rng.pick([2 ** 63 + 1, -5, 7, -(2 ** 70)]) for _ in range(rng.randint(0, 3))]
+                                           for _ in range(n)])]
     if rng.chance(0.5):
         cols.append(col("m3", "multicategorical", [rng.pick(pool2 + pool1) for _ in range(n)], sep=sep))
     keep = [c for c in cols if c["name"] in ("m1", "m2") or rng.chance(0.7)]
@@ -319,10 +370,13 @@ def build_call_df(case, call, df):
     for name in {i["col"] for i in call["inject"]}:
         col = by[name]
         cells = selected_cells(case, call, col)
-        if any(i["col"] == name and i["kind"] == "nonintegral" for i in call["inject"]):
+        if any(i["col"] == name and i["kind"] == "nonintegral" for i in call["inject"]) and \
+                all(v is None or isinstance(v, (int, float)) or v in ("inf", "-inf") for v in cells):
             ser = pd.Series([np.nan if v is None else float(v) for v in cells], dtype=float)
         else:
-            ser = G.build_series(dict(col, cells=cells))
+            ser = G.build_series(dict(col, cells=[float(v) if v in ("inf", "-inf") and col["stype"] == "categorical"
+                                                  and not any(isinstance(x, str) for x in col["cells"]) else v
+                                                  for v in cells]))
         ser.index = df2.index
         df2[name] = ser
     if call["drop_target"]:
@@ -406,9 +460,18 @@ def run_calls(case, ds, calls, after_first=None):
     return recs, frames
 
 
+def make_ds(desc):
+    """Dataset over the described frame; columns flagged `cast` get that numpy dtype (float-category columns)."""
+    df = G.build_df(desc)
+    for c in desc["cols"]:
+        if c.get("cast") and c["name"] in df.columns:
+            df[c["name"]] = df[c["name"]].astype(c["cast"])
+    return G.build_dataset(desc, df=df)[0]
+
+
 def materialize_other(o):
     try:
-        ds, _ = G.build_dataset(o["frame"])
+        ds = make_ds(o["frame"])
         ds.materialize()
     except Exception as ex:
         return None, {"ok": False, "stage": "materialize", "exc": C.exc_name(ex), "msg": str(ex)[:300], "tb": C.fmt_exc()}
@@ -422,7 +485,7 @@ def run(case):
     ma = case.get("materialize_args") or {}
     dev = ma.get("device", "default")
     try:
-        ds, _ = G.build_dataset(desc)
+        ds = make_ds(desc)
         if dev == "pos_none":
             ds.materialize(None)
         elif dev == "kw_str":
@@ -474,7 +537,7 @@ def run(case):
         out["base_after"] = {"exc": C.exc_name(ex), "msg": str(ex)[:300]}
     if case["supplied"]:
         try:
-            ds2, _ = G.build_dataset(desc)
+            ds2 = make_ds(desc)
             st2 = copy.deepcopy(ds.col_stats)                             # a copy: ds2 updates the dict it is given
             if ma.get("col_stats") == "positional":
                 ds2.materialize(torch.device("cpu") if dev == "kw_device" else None, None, st2)
@@ -731,6 +794,15 @@ def stats(cases, obss):
         if sts & {"text_embedded", "image_embedded"}:
             d["frames_with_embedding_merge"] += 1
         d["supplied"] += int(c["supplied"])
+        wide = lambda v: isinstance(v, int) and abs(v) >= 2 ** 63      # noqa: E731
+        fc = sum(1 for x in desc["cols"] if x.get("cast") == "float64" and x["stype"] == "categorical")
+        wc = sum(1 for x in desc["cols"] if x["stype"] == "categorical" and any(wide(v) for v in x["cells"]))
+        wt = sum(1 for x in desc["cols"] if x["stype"] == "multicategorical" and
+                 any(isinstance(cell, list) and any(wide(v) for v in cell) for cell in x["cells"]))
+        d["float_category_columns"] = d.get("float_category_columns", 0) + fc
+        d["wide_int_category_columns"] = d.get("wide_int_category_columns", 0) + wc
+        d["wide_int_token_columns"] = d.get("wide_int_token_columns", 0) + wt
+        d["supplied_with_wide_ints"] = d.get("supplied_with_wide_ints", 0) + int(c["supplied"] and (wc + wt) > 0)
         ma = c.get("materialize_args") or {}
         d.setdefault("materialize_device", {})
         d["materialize_device"][ma.get("device")] = d["materialize_device"].get(ma.get("device"), 0) + 1
@@ -770,6 +842,13 @@ def stats(cases, obss):
             d["malformed_calls"] = d.get("malformed_calls", 0) + int(bool(call.get("drop_feature")))
             for i in call["inject"]:
                 d["injection_kinds"][i["kind"]] = d["injection_kinds"].get(i["kind"], 0) + 1
+                if i["kind"] == "othertype" and i["value"] == "zz":
+                    # a string among numeric categories, next to cells that ARE categories: they must still match
+                    col_ = next(x for x in desc["cols"] if x["name"] == i["col"])
+                    others = [v for p, v in enumerate(selected_cells(c, call, col_)) if p != i["pos"] and v is not None
+                              and not isinstance(v, str)]
+                    d["string_among_numeric_categories_with_seen_cells"] = \
+                        d.get("string_among_numeric_categories_with_seen_cells", 0) + int(bool(others))
                 if i["kind"] == "sibling":
                     # the identical cell string also sits in the sibling column of the converted frame
                     same = any(i["value"] == selected_cells(c, call, o)[p] for o in desc["cols"]
@@ -812,9 +891,14 @@ def sanity(cases, obss):
     for k in ("all", "single", "repeat", "reorder", "multiset", "slice", "missing", "unlabeled"):
         if d["call_kinds"].get(k, 0) == 0:
             probs.append(f"row selection kind {k} never drawn")
+    for k in ("float_category_columns", "wide_int_category_columns", "wide_int_token_columns", "supplied_with_wide_ints"):
+        if d.get(k, 0) == 0:
+            probs.append(f"{k} = 0")
+    if d.get("string_among_numeric_categories_with_seen_cells", 0) < 3:
+        probs.append("fewer than 3 converted frames with a string among numeric categories next to seen cells")
     if d.get("sibling_string_in_same_frame", 0) == 0:
         probs.append("no unseen-by-sibling token whose cell string also occurs in the sibling column of the same frame")
-    for k in ("unseen", "only_unseen", "mixed", "two_unseen", "sibling", "adjacent", "nonintegral"):
+    for k in ("unseen", "only_unseen", "mixed", "two_unseen", "sibling", "adjacent", "nonintegral", "othertype"):
         if d["injection_kinds"].get(k, 0) == 0:
             probs.append(f"unseen-value kind {k} never drawn")
     for k in ("frames_with_embedding_merge", "supplied", "calls_without_target", "calls_with_unseen"):
@@ -867,7 +951,7 @@ def coq_fcol(col, cells, parsed, rows):
                 return "MCMissing"
             if isinstance(c, str):
                 return f"MCStr {M.pstr(c)}"
-            return f"MCList {M.plist(c, M.ppval)}"
+            return f"MCList {M.plist(c, pv)}"
         return "FMulti true " + M.plist(cells, cell)
     if st == "sequence_numerical":
         return "FSeq " + M.plist(cells, lambda c: "SQMissing" if c is None else "SQList " + M.plist(c, lambda x: M.popt(x, M.pnum)))
@@ -938,9 +1022,9 @@ def coq_fits(case, obs, by):
         c = by[n]
         st = c["stype"]
         if st == "categorical":
-            f = "FitCat " + M.plist(obs["stats"][n]["COUNT"][0], M.ppval)
+            f = "FitCat " + M.plist(obs["stats"][n]["COUNT"][0], pv)
         elif st == "multicategorical":
-            f = f"FitMulti {M.plist(obs['stats'][n]['MULTI_COUNT'][0], M.ppval)} {M.popt(c['sep'], M.pstr)}"
+            f = f"FitMulti {M.plist(obs['stats'][n]['MULTI_COUNT'][0], pv)} {M.popt(c['sep'], M.pstr)}"
         else:
             f = {"numerical": "FitNum", "sequence_numerical": "FitSeq", "timestamp": "FitTime",
                  "embedding": "FitEmb"}.get(st, "FitStub")
@@ -960,7 +1044,7 @@ def coq_stats(case, stats_json, by, drop_stub_emb):
         cats = st.get("COUNT", st.get("MULTI_COUNT", [[], []]))[0]
         emb = st.get("EMB_DIM")
         out.append(f"({cstring(n)}, {{| cs_keys := {M.plist(sorted(st), lambda k: 'stat_' + k)}; "
-                   f"cs_cats := {M.plist(cats, M.ppval)}; cs_emb := {M.popt(emb, M.nat)} |}})")
+                   f"cs_cats := {M.plist(cats, pv)}; cs_emb := {M.popt(emb, M.nat)} |}})")
     return M.plist(out)
 
 
